@@ -699,6 +699,12 @@ fn main() {
     run.count("w2_reflect_grid", w2.len() as u64);
     par_range(if on("w2") { w2.len() } else { 0 }, |i| check_case(&run, &w2[i], true));
 
+    if on("w2") {
+        let fixed = workload::fixed_cases();
+        run.count("fixed_cases", fixed.len() as u64);
+        par_range(fixed.len(), |i| check_case(&run, &fixed[i], true));
+    }
+
     // ---- W3: geometry (long lines, wide / combining / zero-width around the error column)
     let w3n = if on("w3") { workload::geometry_count(tier) } else { 0 };
     par_range(w3n, |i| {
